@@ -11,15 +11,17 @@
   D  `ilog10Ceil` is the number of decimal digits on the whole `uint32_t` range, `tostr` prints
      the canonical decimal numeral;
   E  the number loop of the duration parser;
-  F  `idiffStrp (idiffStrf n) = n` for every whole-second duration whose day count fits
-     32 bits (far beyond 2^32 ms), positive and negative;
-  G  every spelling `[+-]P[nW][nD][T[nH][nM][nS]]` parses to its value.
+  F  `idiffStrp (idiffStrf n) = n` for every duration (any number of milliseconds; they are
+     printed as a three-digit fraction of the seconds) whose day count fits 32 bits (far beyond
+     2^32 ms), positive and negative;
+  G  every spelling `[+-]P[nW][nD][T[nH][nM][n[.f]S]]` parses to its value; of the fraction `f`
+     three digits count (milliseconds), further digits are read over.
 
   Statements only; helper lemmas live in Echse/Lemmas/Strpf*.lean.  The year hypothesis is
   `i.y ≤ 9999` only (the printer pads to four digits, so `1000 ≤ i.y` is not needed).
 -/
 import Echse.Lemmas.Strpf2
-import Echse.Lemmas.Strpf4
+import Echse.Lemmas.Strpf6
 namespace C18
 open Echse.Instant Echse.Strpf Echse.Spec.Cal
 
@@ -190,26 +192,62 @@ example : digitsVal ['4','2','9','4','9','6','7','2','9','5'] = 4294967295 := by
 
 /-! ### F. duration round trip -/
 
-/-- whole-second durations of any length (the day count fits 32 bits, i.e. up to
-2^32 · 86400000 ms), positive and negative -/
-theorem idiff_roundtrip_pos (n : Nat) (h1000 : n % 1000 = 0) (hd : n / 86400000 < 2^32) :
+/-- durations of any length (the day count fits 32 bits, i.e. up to 2^32 · 86400000 ms) and any
+number of milliseconds, positive and negative -/
+theorem idiff_roundtrip_pos (n : Nat) (hd : n / 86400000 < 2^32) :
     (idiffStrp (idiffStrf (n : Int)) (idiffStrf (n : Int)).length).1 = (n : Int) :=
-  (idiff_roundtrip n h1000 hd).1
+  (idiff_roundtrip n hd).1
 
-theorem idiff_roundtrip_neg (n : Nat) (h1000 : n % 1000 = 0) (hd : n / 86400000 < 2^32) :
+theorem idiff_roundtrip_neg (n : Nat) (hd : n / 86400000 < 2^32) :
     (idiffStrp (idiffStrf (-(n : Int))) (idiffStrf (-(n : Int))).length).1 = -(n : Int) :=
-  (idiff_roundtrip n h1000 hd).2
+  (idiff_roundtrip n hd).2
+
+/-- both signs in one statement -/
+theorem idiff_roundtrip_int (d : Int) (hd : d.natAbs / 86400000 < 2^32) :
+    (idiffStrp (idiffStrf d) (idiffStrf d).length).1 = d := by
+  rcases Int.natAbs_eq d with h | h
+  · rw [h]; exact idiff_roundtrip_pos _ hd
+  · rw [h]; exact idiff_roundtrip_neg _ hd
+
+/-- what is printed: `P[nD][T[nH][nM][n[.fff]S]]`, a part iff it is not zero, a `0` before a lone
+fraction -/
+theorem idiffStrf_form (n : Nat) (hn : n ≠ 0) (hd : n / 86400000 < 2^32) :
+    idiffStrf (n : Int) = 'P' :: durBodyF none (nz (n / 86400000)) (nz (n % 86400000 / 3600000))
+        (nz (n % 86400000 % 3600000 / 60000))
+        (secsOf (n % 86400000 % 3600000 % 60000 / 1000) (n % 86400000 % 3600000 % 60000 % 1000))
+        (fracOf (n % 86400000 % 3600000 % 60000 % 1000)) :=
+  (idiffStrf_body n hn hd).1
+
+theorem printed_parts_def (v sec ms : Nat) :
+    nz v = (if v ≠ 0 then some (tostr v) else none) ∧
+    secsOf sec ms = (if sec ≠ 0 ∨ ms ≠ 0 then some (tostr sec) else none) ∧
+    fracOf ms = (if ms ≠ 0 then some (tpstr ms 3) else none) := ⟨rfl, rfl, rfl⟩
 
 -- 50 days are more than 2^32 ms
-example : (4320000000 : Nat) > 2^32 ∧ 4320000000 % 1000 = 0 ∧ 4320000000 / 86400000 < 2^32 := by decide
+example : (4320000000 : Nat) > 2^32 ∧ 4320000000 / 86400000 < 2^32 := by decide
 example : idiffStrf 4320000000 = ['P','5','0','D'] := by decide
 example : idiffStrp (idiffStrf 4320000000) 4 = (4320000000, 5) := by decide
 example : idiffStrf (-(4320000000 + 3723000)) = ['-','P','5','0','D','T','1','H','2','M','3','S'] := by decide
 example : (idiffStrp (idiffStrf (-(4320000000 + 3723000))) 12).1 = -4323723000 := by decide
+-- milliseconds are kept
+example : idiffStrf 500 = "PT0.500S".toList := by decide
+example : idiffStrp "PT0.500S".toList 8 = (500, 9) := by decide
+/-- half a second survives -/
+theorem idiff_roundtrip_500ms : (idiffStrp (idiffStrf 500) (idiffStrf 500).length).1 = 500 := by decide
+example : idiffStrf 86400500 = "P1DT0.500S".toList := by decide
+example : (idiffStrp "P1DT0.500S".toList 10).1 = 86400500 := by decide
+example : idiffStrf 1007 = "PT1.007S".toList := by decide
+example : (idiffStrp "PT1.007S".toList 8).1 = 1007 := by decide
+example : idiffStrf 60050 = "PT1M0.050S".toList := by decide
+example : (idiffStrp "PT1M0.050S".toList 10).1 = 60050 := by decide
+example : idiffStrf 1500 = "PT1.500S".toList := by decide
+example : (idiffStrp (idiffStrf 1500) 8).1 = 1500 := by decide
+example : idiffStrf (-(4320000000 + 3723999)) = "-P50DT1H2M3.999S".toList := by decide
+example : (idiffStrp "-P50DT1H2M3.999S".toList 16).1 = -4323723999 := by decide
 
 /-! ### G. spellings of durations -/
 
-/-- the text `[sign]P[nW][nD][T[nH][nM][nS]]`: every part optional, the `T` present iff a time part
+/-- the text `[sign]P[nW][nD][T[nH][nM][nS]]` (no fraction; with one: `idiff_spellings_frac`): every part optional, the `T` present iff a time part
 is, the numbers any digit strings (leading zeros allowed) with a value below 2^32 -/
 theorem durBody_def (w d h mi s : Option (List Char)) :
     durBody w d h mi s = part w 'W' ++ part d 'D' ++
@@ -258,6 +296,62 @@ theorem idiff_spellings_nat (sign : List Char) (w d h mi s : Option Nat)
     rw [pval_map_tostr w hw, pval_map_tostr d hd, pval_map_tostr h hh, pval_map_tostr mi hm,
       pval_map_tostr s hs] at this
     exact this
+
+/-- the seconds with a decimal fraction: `[sign]P[nW][nD]T[nH][nM]<s>.<fs>S` with `s` and `fs` any digit
+strings (`s` with a value below 2^32, both may be empty) reads as the value of the parts plus
+`fracVal fs` milliseconds -/
+theorem idiff_spellings_frac (sign : List Char) (w d h mi : Option (List Char)) (s fs : List Char)
+    (hw : POk w) (hd : POk d) (hh : POk h) (hm : POk mi)
+    (hs : ∀ c ∈ s, isDig c) (hsv : digitsVal s < 2^32) (hfs : ∀ c ∈ fs, isDig c)
+    (hsign : sign = [] ∨ sign = ['+'] ∨ sign = ['-']) :
+    let text := sign ++ 'P' :: (part w 'W' ++ part d 'D' ++
+      'T' :: (part h 'H' ++ part mi 'M' ++ (s ++ '.' :: fs ++ ['S'])))
+    (idiffStrp text text.length).1 =
+      (if sign = ['-'] then -1 else 1) *
+        ((pval w * 7 + pval d) * 86400000 + pval h * 3600000 + pval mi * 60000 + (digitsVal s : Int) * 1000
+          + (fracVal fs : Int)) := by
+  intro text
+  have e : text = sign ++ 'P' :: durBodyF w d h mi (some s) (some fs) := by
+    simp only [text, durBodyF_frac]
+  have hlen : 3 ≤ text.length := by
+    simp only [text, List.length_append, List.length_cons]; omega
+  rw [e] at hlen ⊢
+  rw [idiffStrp_durF sign w d h mi (some s) (some fs) hw hd hh hm
+    (by intro ds h; cases h; exact ⟨hs, hsv⟩) (by intro x h; cases h; exact hfs) hsign hlen]
+  simp only [durValF, pval, fval]
+  split <;> omega
+
+/-- the milliseconds of a fraction: pad with zeros to three digits or cut after the third, and read
+the number so written; with at most three digits that is the number scaled by 100, 10 or 1 -/
+theorem fracVal_spec (fs : List Char) :
+    fracVal fs = digitsVal ((fs ++ ['0', '0', '0']).take 3) ∧
+    (fs.length ≤ 3 → fracVal fs = digitsVal fs * 10 ^ (3 - fs.length)) ∧
+    ((∀ c ∈ fs, isDig c) → fracVal fs < 1000) :=
+  ⟨fracVal_pad fs, fracVal_short fs, fracVal_lt fs⟩
+
+/-- digits behind the third are read over -/
+theorem fracVal_more (a b c : Char) (r : List Char) : fracVal (a :: b :: c :: r) = fracVal [a, b, c] :=
+  fracVal_over a b c r
+
+/-- what `idiffStrf` prints is such a spelling, and the three digits give the milliseconds back -/
+theorem fracVal_printed (ms : Nat) (h : ms < 1000) : fracVal (tpstr ms 3) = ms := fracVal_tpstr3 ms h
+
+-- fractions: one to three digits, more than three, none, no digit before the point
+example : idiffStrp "PT0.5S".toList 6 = (500, 7) := by decide
+example : (idiffStrp "PT0.05S".toList 7).1 = 50 := by decide
+example : (idiffStrp "PT0.005S".toList 8).1 = 5 := by decide
+example : (idiffStrp "PT0.0059S".toList 9).1 = 5 := by decide
+example : (idiffStrp "PT1.23456789S".toList 13).1 = 1234 := by decide
+example : (idiffStrp "PT1.S".toList 5).1 = 1000 := by decide
+example : (idiffStrp "PT.5S".toList 5).1 = 500 := by decide
+example : (idiffStrp "-P1W2DT3H4M5.25S".toList 16).1 = -788645250 := by decide
+example : (idiffStrp "+PT1.5S".toList 7).1 = 1500 := by decide
+example : (idiffStrp "PT1.500S".toList 8).1 = (idiffStrp "PT1.5S".toList 6).1 := by decide
+example : (idiffStrp "PT90.5S".toList 7).1 = (idiffStrp "PT1M30.500S".toList 11).1 := by decide
+-- a fraction belongs to the seconds: behind hours or minutes parsing stops, what was read so far stays
+example : idiffStrp "PT1H2.5M".toList 8 = (3600000, 7) := by decide
+example : fracVal "5".toList = 500 ∧ fracVal "05".toList = 50 ∧ fracVal "005".toList = 5 ∧
+    fracVal "0059".toList = 5 ∧ fracVal [] = 0 := by decide
 
 -- P1W2DT3H4M5S, with signs, with leading zeros, single parts
 example : idiffStrp ['P','1','W','2','D','T','3','H','4','M','5','S'] 12 = (788645000, 13) := by decide
